@@ -110,7 +110,7 @@ theorem lincode_brakedown_is_linear (bp : BParams F) (h : shapeOk bp = true) :
 /-! non-vacuity: the hypotheses hold on the toy instance (repetition code, `2 × 2` matrix over
 `ZMod 101`), with and without well-formedness; the run evaluates to `Ok(true)` -/
 example : HonestRun (toyPP true) (.uni 5) [1, 2, 3] ⟨[7, 9], [2, 0, 3]⟩ where
-  enc := ⟨toyE, 4, toy_encodes true _, by decide⟩
+  enc := ⟨toyE, 4, toy_encodes true _ (by decide), by decide⟩
   tens := ⟨_, _, rfl, by decide⟩
   rlen := by decide
 example : toyRun true (.uni 5) [1, 2, 3] ⟨[7, 9], [2, 0, 3]⟩ (evalPoly [1, 2, 3] 5) = .ok true := by
